@@ -185,7 +185,7 @@ impl MEntry {
 #[derive(Clone, Debug)]
 enum MItem {
     New { index: u64, conflict: u64, cost: i64, val: Val, created: i64, ttl: i64 },
-    Update { index: u64, cost: i64, ext: i64 },
+    Update { index: u64, cost: i64, ext: i64, iip: bool },
     Delete { index: u64, conflict: u64, kills: Vec<Val> },
     Wait,
 }
@@ -1134,9 +1134,17 @@ impl<'a> Interp<'a> {
         };
         match item {
             MItem::Wait => self.expect_events("Wait item", &log, &[]),
-            MItem::Update { index, cost, ext } => {
+            MItem::Update { index, cost, ext, iip } => {
                 let c = self.charge(cost) + ext;
-                self.m_policy_update(index, c);
+                let was_charged = self.m_policy_update(index, c);
+                // C09: insert_if_present on a resident key is an update of value *and* cost
+                if iip && was_charged {
+                    if let Some((_, got)) = costs_after.iter().find(|(k, _)| *k == index) {
+                        if *got != c {
+                            self.fail("iip_cost_update", &["C09", "C16"], format!("insert_if_present on resident key {} with charge {}: after its Update item was applied the key is charged {}", index, c, got));
+                        }
+                    }
+                }
                 self.expect_events("Update item", &log, &[]);
             }
             MItem::Delete { index, conflict, kills } => {
@@ -1593,7 +1601,7 @@ impl<'a> Interp<'a> {
                     self.feats.updates_inflight += 1;
                 }
                 if room {
-                    self.m.pending.push_back(MItem::Update { index, cost, ext });
+                    self.m.pending.push_back(MItem::Update { index, cost, ext, iip: only_update });
                 }
                 want = true;
             }
@@ -1986,6 +1994,23 @@ impl<'a> Interp<'a> {
         if self.m.synced {
             self.m.pending.clear();
             self.model_wipe();
+        }
+        // C11 / C13: a completed clear() zeroes the admission filter too - a fresh cache estimates
+        // zero for every key and its doorkeeper is empty
+        if !self.in_interposed_op && r.is_ok() {
+            let keys: Vec<u64> = self.cfg.keys.iter().map(|k| k.0).collect();
+            for index in keys {
+                let est = self.sut.estimate(index);
+                let dk = self.sut.doorkeeper_has(index);
+                if est != 0 || dk {
+                    self.fail(
+                        "estimator_not_cleared",
+                        &["C11", "C13"],
+                        format!("right after clear() returned (nothing buffered), index {} estimates {} (doorkeeper: {}); a fresh cache estimates 0", index, est, dk),
+                    );
+                    break;
+                }
+            }
         }
     }
 
